@@ -178,6 +178,7 @@ def run(H, tier, rng):
     check_fit(H, [0, 1, 2], [1, 3, 2], (1.0, 0.5), "fit-fixed")
 
 
-Harness("C16", "all vector pairs over {0,1,2,5} of length 1..3 (sampled at length 3 in quick), vectors with a large common offset (3e8..1e9), "
-        "seeded random quarter-integer vectors of length <= 8, random x-sorted fits; oracle: textbook formulas incl. the eps guard in exact "
-        "rational arithmetic (one sqrt/log in double precision), relative tolerance 1e-9 (1e-7 for R2 and the fit wrappers)", "length <= 8").main(run)
+if __name__ == "__main__":
+    Harness("C16", "all vector pairs over {0,1,2,5} of length 1..3 (sampled at length 3 in quick), vectors with a large common offset (3e8..1e9), "
+            "seeded random quarter-integer vectors of length <= 8, random x-sorted fits; oracle: textbook formulas incl. the eps guard in exact "
+            "rational arithmetic (one sqrt/log in double precision), relative tolerance 1e-9 (1e-7 for R2 and the fit wrappers)", "length <= 8").main(run)
